@@ -1,5 +1,5 @@
 (* extraction of the css codec model; directives: ExtrOcamlBasic only *)
 From Coq Require Import ExtrOcamlBasic.
-From CssV Require Import Base CodecPyLib Gen.CodecFns Codec CodecConcrete CodecInstances.
+From CssV Require Import Base CodecPyLib Gen.CodecFns Codec CodecConcrete CodecInstances CodecBom.
 Extraction "codec_model.ml" detectencoding_str detectencoding_unicode fixencoding
-  c_decode c_encode c_dec_feed c_enc_feed c_dec_trace c_enc_trace c_sw_trace r_decode r_dec_trace cd_init cd_step cd_shot ce_init ce_step ce_shot.
+  c_decode c_encode c_dec_feed c_enc_feed c_dec_trace c_enc_trace c_sw_trace c_sr_trace divergent_input r_decode r_dec_trace cd_init cd_step cd_shot ce_init ce_step ce_shot.
